@@ -179,4 +179,22 @@ example :
     runHist [.read 4, .seek 8, .read 4, .read 3] ({ rest := List.range 20, seek := 0, index := 0 } : Fwd Nat) =
       [[0, 1, 2, 3], [8, 9, 10, 11], [12, 13, 14]] := by decide
 
+/-! ## `missingPage.Slice` (round 5) -/
+
+/-- A slice of the stand-in page of an added column without adjacent chunk reads the rows
+    `[i, j)` of the page: same entries (null at `maxDef - 1`, or the zero value for `maxDef = 0`),
+    for every row count, every maximal definition level and all bounds. -/
+theorem missing_slice_is_page_slice (numRows td i j : Nat) (hij : i ≤ j) (hj : j ≤ numRows) :
+    missingSlice true td i j = ((missingCol numRows 0 td none).drop i).take (j - i) := by
+  have h : min (j - i) (numRows - i) = j - i := by omega
+  simp [missingSlice, missingCol, List.drop_replicate, List.take_replicate, h]
+
+example : missingSlice true 1 4 10 = List.replicate 6 ⟨none, 0, 0⟩ := by decide
+
+/-- the slip of seed C12-5b on the mirror: without `maxDefinitionLevel` the slice of an added
+    OPTIONAL column yields zero VALUES where the page yields nulls -/
+theorem missing_slice_forgets_max_def :
+    missingSlice false 1 0 2 = [⟨some 0, 0, 0⟩, ⟨some 0, 0, 0⟩] ∧
+      ((missingCol 4 0 1 none).drop 0).take 2 = [⟨none, 0, 0⟩, ⟨none, 0, 0⟩] := by decide
+
 end PqModel.Props.C12Chunks
